@@ -530,6 +530,19 @@ class Checker:
                 res.violation('centroid', self.case(hist), dict(at, module=m), [c0.x, c0.y], [c1.x, c1.y])
         if sorted(mods) != sorted({m for rc in real for m in rc[3]}):
             res.violation('inherit', self.case(hist), at, mods, sorted({m for rc in real for m in rc[3]}))
+        # ... and of the set of all modules (a cluster): the area-weighted mean of the single centres, before and after
+        if len(mods) >= 2:
+            try:
+                A1 = out.area(mods)
+                C1, C0 = out.center(mods), alloc.center(mods)
+                ex = sum(out.center(m).x * out.area(m) for m in mods) / sum(out.area(m) for m in mods)
+                ey = sum(out.center(m).y * out.area(m) for m in mods) / sum(out.area(m) for m in mods)
+                sc = tol / 1e-9
+                if abs(C1.x - ex) > 1e-9 * sc or abs(C1.y - ey) > 1e-9 * sc or abs(C0.x - C1.x) > 1e-9 * sc or abs(C0.y - C1.y) > 1e-9 * sc \
+                        or abs(A1 - sum(out.area(m) for m in mods)) > 1e-9 * max(abs(A1), 1e-300):
+                    res.violation('centroid', self.case(hist), dict(at, module='cluster'), [ex, ey], [C1.x, C1.y, C0.x, C0.y])
+            except Exception as e:  # noqa
+                res.violation('area', self.case(hist), at, 'area/center of the set of all modules defined', f'{type(e).__name__}: {e}')
 
     def grid_postcondition(self, real, hist, at, tol):
         """the stated outcome of grid refinement, judged on the real result: no refinable cell is crossed by a boundary line
